@@ -85,7 +85,10 @@ func runSeed(repo, seedDir string, m seedMeta, id string, known *core.KnownFile)
 	res.Applied = true
 	p, err := core.Load(tmp, "", "")
 	if err != nil {
-		res.Note = "load: " + err.Error()
+		// e.g. the reverse of one fix no longer compiles on top of a later one: skipped, like a
+		// patch that does not apply
+		res.Applied = false
+		res.Note = "patched tree does not load: " + firstLine(err.Error())
 		return res
 	}
 	c := core.NewCtx(p, id, "selftest")
